@@ -21,7 +21,7 @@ type refusal struct {
 // it is not a liberty to report an error the expression does not have. The refused expression is
 // looked up by position in the freshly parsed text; when it belongs to a top-level simple statement
 // (not inside a block or function body, so every name in it means what it means at top level) each
-// expression starting at that position is evaluated by itself - `return (<expr>)` - in an unoptimized
+// expression containing that position is evaluated by itself - `return (<expr>)` - in an unoptimized
 // session that replayed everything before the statement. If every one of them yields a value, no
 // constant sub-expression at that position fails, and the refusal misrepresents the session's state
 // (e.g. a name declared by an earlier fragment resolved to the builtin again). Anything else - a
@@ -83,9 +83,18 @@ func refusedCandidates(text string, ref *refusal) (before string, cands []string
 	if err != nil || pf == nil {
 		return "", nil
 	}
+	// the optimizer rewrites the tree before it evaluates (it drops parentheses, so a node may report the
+	// position of what used to be its operand): every expression whose text CONTAINS the refused position
+	// is a candidate, not only those starting there
 	at := func(n parser.Node) bool {
-		p := fs.Position(n.Pos())
-		return p.Line == ref.Line && p.Column == ref.Col
+		p, q := fs.Position(n.Pos()), fs.Position(n.End())
+		if p.Line > ref.Line || (p.Line == ref.Line && p.Column > ref.Col) {
+			return false
+		}
+		if q.Line < ref.Line || (q.Line == ref.Line && q.Column < ref.Col) {
+			return false
+		}
+		return true
 	}
 	for _, st := range pf.Stmts {
 		switch st.(type) {
